@@ -262,8 +262,84 @@ func (k c05) vectors(c *rt.Ctx) {
 	}
 }
 
+// sortKeys: a sort key that is an element of a named list, and a sort key whose name a later field
+// announces again (uses of a name mean the FIRST field of that name - the rule the duplicate
+// columns above rest on - so giving the later field another name changes no row).
+func (k c05) sortKeys(c *rt.Ctx) {
+	r := c.R
+	var ps []refstore.Pair
+	n := r.Range(4, 30)
+	for i := 0; i < n; i++ {
+		v := fmt.Sprint([]int{10, 9, 100, 2, 33, 7, 250, 41, 5}[r.Intn(9)] + r.Intn(3))
+		if r.Chance(1, 6) {
+			v = []string{"x", "zz", ""}[r.Intn(3)]
+		}
+		ps = append(ps, refstore.Pair{K: fmt.Sprintf("k%02d", i), V: v})
+	}
+	ps = refstore.New(ps).Pairs()
+	if c.Case%2 == 0 {
+		ctor := []string{"int_list", "ilist", "list", "float_list"}[r.Intn(4)]
+		var ldef *gen.Node
+		if ctor == "float_list" {
+			ldef = gen.Call(ctor, gen.Call("float", gen.Value()), gen.Float("1.0"))
+		} else {
+			ldef = gen.Call(ctor, gen.Call("int", gen.Value()), gen.Int(1))
+		}
+		mdef := gen.IndexI(gen.Ref("l", ldef), 0)
+		stmt := &gen.Stmt{Kind: "select", Fields: []gen.Field{{E: gen.Key()}, {E: ldef, Alias: "l"}, {E: mdef, Alias: "m"}},
+			Where: gen.Call("is_int", gen.Value()), OrderBy: []gen.OrderItem{{Name: "m", Desc: r.Bool()}}}
+		if r.Bool() {
+			stmt.OrderBy = append(stmt.OrderBy, gen.OrderItem{Name: "key"})
+		}
+		c.Rec.Inc("sort_key_is_an_element_of_a_named_list")
+		if hit := k.judge(c, stmt, ps, ""); hit != "" {
+			k.judge(c, stmt, ps, stmt.Text(gen.Plain))
+		}
+		return
+	}
+	first := []*gen.Node{gen.Value(), gen.Call("upper", gen.Value()), gen.Call("strlen", gen.Value())}[r.Intn(3)]
+	later := []*gen.Node{gen.Key(), gen.Key(), gen.Call("lower", gen.Key())}[r.Intn(3)]
+	w := gen.Bin("!=", gen.Value(), gen.Str("zz"))
+	if r.Bool() {
+		lit := gen.Str("X")
+		if first.T == gen.TN {
+			lit = gen.Int(0)
+		}
+		w = gen.And(w, gen.Bin("!=", gen.Ref("x", first), lit))
+	}
+	desc := r.Chance(1, 3)
+	dup := &gen.Stmt{Kind: "select", Fields: []gen.Field{{E: first, Alias: "x"}, {E: later, Alias: "x"}}, Where: w, OrderBy: []gen.OrderItem{{Name: "x", Desc: desc}}}
+	ren := &gen.Stmt{Kind: "select", Fields: []gen.Field{{E: first, Alias: "x"}, {E: later, Alias: "x2"}}, Where: w, OrderBy: []gen.OrderItem{{Name: "x", Desc: desc}}}
+	c.Rec.Inc("sort_key_whose_name_a_later_field_repeats")
+	size := []int{1, 2, 3, 5, 32}[c.Case%5]
+	ref := drive.Run(ren.Text(gen.Plain), refstore.New(ps), drive.Mode{Batch: false, Size: size, Cache: false})
+	c.Rec.Eval(1)
+	if ref.Status() != "ok" {
+		c.Rec.NotJudged("statement with the later field renamed does not run: " + ref.Status())
+		return
+	}
+	for _, m := range []drive.Mode{{Batch: false, Size: size, Cache: true}, {Batch: true, Size: size, Cache: true}, {Batch: false, Size: size, Cache: false}, {Batch: true, Size: size, Cache: false}} {
+		o := drive.Run(dup.Text(gen.Plain), refstore.New(ps), m)
+		c.Rec.Eval(1)
+		if o.Status() != "ok" || !drive.RowsEqual(o.Rows, ref.Rows) {
+			if o.Status() == "ok" && c03RowsAgree(ren, ref, o) == "" {
+				continue
+			}
+			mm := m
+			c.Violation("configurations-disagree", "sort key whose name a later field repeats / "+rt.Shape(dup.Text(gen.Plain)), func() rt.D {
+				return rt.D{"statement": dup.Text(gen.Plain), "later_field_renamed": ren.Text(gen.Plain), "config": mm.String(), "outcome": outcomeBrief(o), "observed": drive.Trunc(o.Rows, 10), "reference(renamed,row,nocache)": drive.Trunc(ref.Rows, 10), "store": storeBrief(ps)}
+			})
+			return
+		}
+	}
+}
+
 func (k c05) Run(c *rt.Ctx) {
 	r := c.R
+	if c.Case%25 == 9 {
+		k.sortKeys(c)
+		return
+	}
 	if r.Chance(1, 12) {
 		k.collide(c)
 		return
